@@ -30,7 +30,7 @@ func c02Enumerate(tier string, emit func(*eng.Case)) {
 			emit(caseFromModel("doc", d, atoms, url))
 		})
 	}
-	crossEmit(tier, "xdoc", 1, emit)
+	crossEmit("C02", tier, "xdoc", 1, emit)
 }
 
 func c02Check(c *eng.Case) *eng.Outcome {
